@@ -451,14 +451,17 @@ func (mr *msgReader) read(p []byte) (int, error) {
 		}
 
 		n, err := mr.c.readFramePayload(mr.ctx, p)
-		if err != nil {
-			return n, err
-		}
 
 		mr.payloadLength -= int64(n)
 
 		if !mr.c.client {
-			mr.maskKey = mask(p, mr.maskKey)
+			// Unmask whatever was read, also on error, so that the bytes
+			// handed to the caller are always payload bytes.
+			mr.maskKey = mask(p[:n], mr.maskKey)
+		}
+
+		if err != nil {
+			return n, err
 		}
 
 		return n, nil
